@@ -10,7 +10,7 @@ package hrpc
 //@ func hrpc.cellFromCellBlock
 //@   dead return 7 "defensive re-check of the total length: implied by the checks before it (the generator proves it dead)"
 //@   modifies nothing
-//@   panics never[C11]
+//@   panics never[C11,C10]
 //@   ensures[C11] r2 != nil ==> r0 == nil && r1 == 0
 //@   ensures[C11] r2 == nil ==> r0 != nil && r1 <= len(b)
 //@   ensures[C10] r2 == nil ==> cellAt(r0, b)
@@ -180,6 +180,9 @@ package hrpc
 //@   requires mapsum(m.values, f, mapsum(ite(m.mutationType == 3 && m.values[f] == nil, emptyQualifier, m.values[f]), q, 24 + len(m.key) + strlen(f) + strlen(q) + len(ite(m.mutationType == 3 && m.values[f] == nil, emptyQualifier, m.values[f])[q]))) <= 281474976710656
 // what is returned (C05): the size reported is the number of bytes of the block (mod 2^32: the wire field is a uint32)
 //@   ensures[C05] r2 == len(r0) % 4294967296
+//@   ensures[C05] len(m.values) != 0 && mapsum(m.values, f, len(ite(m.mutationType == 3 && m.values[f] == nil, emptyQualifier, m.values[f]))) < 2147483648 ==> r1 == mapsum(m.values, f, len(ite(m.mutationType == 3 && m.values[f] == nil, emptyQualifier, m.values[f])))
+//@   loop 1 invariant[C05] count >= 0 && count == sumvisited(f, len(ite(m.mutationType == 3 && m.values[f] == nil, emptyQualifier, m.values[f])))
+//@   loop 1 exit-assert[C05] count == mapsum(m.values, f, len(ite(m.mutationType == 3 && m.values[f] == nil, emptyQualifier, m.values[f])))
 //@   panics never[C10]
 //@   loop 1 invariant[C10] cbsLen >= 0 && cbsLen == sumvisited(f, mapsum(ite(m.mutationType == 3 && m.values[f] == nil, emptyQualifier, m.values[f]), q, 24 + len(m.key) + strlen(f) + strlen(q) + len(ite(m.mutationType == 3 && m.values[f] == nil, emptyQualifier, m.values[f])[q])))
 //@   loop 2 invariant[C10] cbsLen >= atentry(2, cbsLen) && cbsLen == atentry(2, cbsLen) + sumvisited(q, 24 + len(m.key) + strlen(family) + strlen(q) + len(v[q]))
@@ -385,12 +388,95 @@ package hrpc
 // (only when it is not empty) and its size is reported; without, nothing is appended and the size is 0
 //@   ensures[C05] !isCellblocks ==> r2 == 0 && sameslice(r1, cbs) && r0.Mutation.AssociatedCellCount == nil
 //@   ensures[C05] isCellblocks ==> r0.Mutation.AssociatedCellCount != nil && len(r0.Mutation.ColumnValue) == 0
+// the cell count announced for the mutation is the number of cells in its block (one per family and qualifier)
+//@   ensures[C05,C10] isCellblocks && len(m.values) != 0 && mapsum(m.values, f, len(ite(m.mutationType == 3 && m.values[f] == nil, emptyQualifier, m.values[f]))) < 2147483648 ==> *r0.Mutation.AssociatedCellCount == mapsum(m.values, f, len(ite(m.mutationType == 3 && m.values[f] == nil, emptyQualifier, m.values[f])))
 //@   ensures[C05] isCellblocks && r2 == 0 ==> sameslice(r1, cbs)
 //@   ensures[C05] isCellblocks && r2 > 0 ==> len(r1) == len(cbs) + 1 && len(r1[len(cbs)]) % 4294967296 == r2 && forall(k, 0 <= k && k < len(cbs), sameslice(r1[k], cbs[k]))
 // the TTL travels as the attribute "_ttl" exactly when one was set
 //@   ensures[C05] (len(m.ttl) > 0) == (len(r0.Mutation.Attribute) == 1) && (len(m.ttl) == 0 ==> len(r0.Mutation.Attribute) == 0)
 //@   ensures[C05] len(m.ttl) > 0 ==> r0.Mutation.Attribute[0] != nil && sameslice(r0.Mutation.Attribute[0].Value, m.ttl)
 //@   ensures[C05,C10] (m.timestamp != 18446744073709551615) == (r0.Mutation.Timestamp != nil) && (m.timestamp != 18446744073709551615 ==> *r0.Mutation.Timestamp == m.timestamp)
+// the two public faces of a mutation's serialisation (C05): with cellblocks the request announces its cells and carries
+// no column values; as plain protobuf it is the other way round and nothing is appended to the cellblock list
+//@ func hrpc.(*Mutate).SerializeCellBlocks
+//@   requires m.region != nil && RegionSpecifierRegionName != nil && *RegionSpecifierRegionName == 1
+//@   requires 0 <= m.durability && m.durability < len(durabilities)
+//@   requires len(m.key) <= 65535
+//@   requires forall(f, haskey(m.values, f) ==> strlen(f) <= 255)
+//@   requires forall(f, q, haskey(m.values, f) && haskey(m.values[f], q), strlen(q) + len(m.values[f][q]) < 2147000000)
+//@   requires emptyQualifier != nil && forall(q, haskey(emptyQualifier, q) ==> strlen(q) == 0 && len(emptyQualifier[q]) == 0)
+//@   requires mapsum(m.values, f, mapsum(ite(m.mutationType == 3 && m.values[f] == nil, emptyQualifier, m.values[f]), q, 24 + len(m.key) + strlen(f) + strlen(q) + len(ite(m.mutationType == 3 && m.values[f] == nil, emptyQualifier, m.values[f])[q]))) <= 281474976710656
+//@   requires *MutationProtoDeleteFamilyVersion == 3 && *MutationProtoDeleteFamily == 2 && *MutationProtoDeleteOneVersion == 0 && *MutationProtoDeleteMultipleVersions == 1
+//@   ensures[C05] r0 != nil && typeis(r0, "*pb.MutateRequest") && cast(r0, "*pb.MutateRequest").Mutation.AssociatedCellCount != nil && len(cast(r0, "*pb.MutateRequest").Mutation.ColumnValue) == 0
+//@   ensures[C05] r2 == 0 ==> sameslice(r1, cbs)
+//@   ensures[C05] r2 > 0 ==> len(r1) == len(cbs) + 1 && len(r1[len(cbs)]) % 4294967296 == r2
+//@ func hrpc.(*Mutate).ToProto
+//@   requires m.region != nil && RegionSpecifierRegionName != nil && *RegionSpecifierRegionName == 1
+//@   requires 0 <= m.durability && m.durability < len(durabilities)
+//@   requires len(m.key) <= 65535
+//@   requires forall(f, haskey(m.values, f) ==> strlen(f) <= 255)
+//@   requires forall(f, q, haskey(m.values, f) && haskey(m.values[f], q), strlen(q) + len(m.values[f][q]) < 2147000000)
+//@   requires emptyQualifier != nil && forall(q, haskey(emptyQualifier, q) ==> strlen(q) == 0 && len(emptyQualifier[q]) == 0)
+//@   requires mapsum(m.values, f, mapsum(ite(m.mutationType == 3 && m.values[f] == nil, emptyQualifier, m.values[f]), q, 24 + len(m.key) + strlen(f) + strlen(q) + len(ite(m.mutationType == 3 && m.values[f] == nil, emptyQualifier, m.values[f])[q]))) <= 281474976710656
+//@   requires *MutationProtoDeleteFamilyVersion == 3 && *MutationProtoDeleteFamily == 2 && *MutationProtoDeleteOneVersion == 0 && *MutationProtoDeleteMultipleVersions == 1
+//@   ensures[C05] r0 != nil && typeis(r0, "*pb.MutateRequest") && cast(r0, "*pb.MutateRequest").Mutation != nil && cast(r0, "*pb.MutateRequest").Mutation.AssociatedCellCount == nil
+//@ func hrpc.(*Mutate).CellBlocksEnabled
+//@   modifies nothing
+//@   ensures[C05] r0
+// a check-and-put is the put it wraps plus its condition (C05): the condition names the put's own row and the family,
+// qualifier and comparator given at construction, with comparison EQUAL; it is sent as plain protobuf (no cellblocks: the
+// condition lives in this message only) and never travels in a multi
+//@ func hrpc.(*CheckAndPut).CellBlocksEnabled
+//@   modifies nothing
+//@   ensures[C05] !r0
+//@ func hrpc.(*CheckAndPut).ToProto
+//@   requires cp.Mutate != nil
+//@   requires cp.Mutate.region != nil && RegionSpecifierRegionName != nil && *RegionSpecifierRegionName == 1
+//@   requires 0 <= cp.Mutate.durability && cp.Mutate.durability < len(durabilities)
+//@   requires len(cp.Mutate.key) <= 65535
+//@   requires forall(f, haskey(cp.Mutate.values, f) ==> strlen(f) <= 255)
+//@   requires forall(f, q, haskey(cp.Mutate.values, f) && haskey(cp.Mutate.values[f], q), strlen(q) + len(cp.Mutate.values[f][q]) < 2147000000)
+//@   requires emptyQualifier != nil && forall(q, haskey(emptyQualifier, q) ==> strlen(q) == 0 && len(emptyQualifier[q]) == 0)
+//@   requires mapsum(cp.Mutate.values, f, mapsum(ite(cp.Mutate.mutationType == 3 && cp.Mutate.values[f] == nil, emptyQualifier, cp.Mutate.values[f]), q, 24 + len(cp.Mutate.key) + strlen(f) + strlen(q) + len(ite(cp.Mutate.mutationType == 3 && cp.Mutate.values[f] == nil, emptyQualifier, cp.Mutate.values[f])[q]))) <= 281474976710656
+//@   requires *MutationProtoDeleteFamilyVersion == 3 && *MutationProtoDeleteFamily == 2 && *MutationProtoDeleteOneVersion == 0 && *MutationProtoDeleteMultipleVersions == 1
+//@   ensures[C05] typeis(r0, "*pb.MutateRequest") && cast(r0, "*pb.MutateRequest").Condition != nil
+//@   ensures[C05] sameslice(cast(r0, "*pb.MutateRequest").Condition.Row, cp.Mutate.key) && sameslice(cast(r0, "*pb.MutateRequest").Condition.Family, cp.family) && sameslice(cast(r0, "*pb.MutateRequest").Condition.Qualifier, cp.qualifier)
+//@   ensures[C05] cast(r0, "*pb.MutateRequest").Condition.Comparator == cp.comparator && cast(r0, "*pb.MutateRequest").Condition.CompareType != nil && *cast(r0, "*pb.MutateRequest").Condition.CompareType == 2
+//@ func pb.CompareType.Enum
+//@   modifies nothing
+//@   ensures r0 != nil && *r0 == x && !was(allocated(r0))
+// what the options of a Get / Scan end up in (C05): each setter writes exactly its own field(s) with the value given; a
+// fresh query holds the server defaults (no time range, one version, no per-family limit, block cache on)
+//@ func hrpc.newBaseQuery
+//@   modifies nothing
+//@   ensures[C05] r0.storeLimit == DefaultMaxResultsPerColumnFamily && r0.fromTimestamp == 0 && r0.toTimestamp == 18446744073709551615 && r0.maxVersions == DefaultMaxVersions && r0.cacheBlocks == DefaultCacheBlocks && r0.storeOffset == 0 && r0.priority == 0
+//@ func hrpc.(*baseQuery).setTimeRangeUint64
+//@   modifies F.hrpc.baseQuery.fromTimestamp, F.hrpc.baseQuery.toTimestamp
+//@   ensures[C05] bq.fromTimestamp == from && bq.toTimestamp == to
+//@ func hrpc.(*baseQuery).setFamilies
+//@   modifies F.hrpc.baseQuery.families
+//@   ensures[C05] bq.families == families
+//@ func hrpc.(*baseQuery).setFilter
+//@   modifies F.hrpc.baseQuery.filter
+//@   ensures[C05] bq.filter == filter
+//@ func hrpc.(*baseQuery).setMaxVersions
+//@   modifies F.hrpc.baseQuery.maxVersions
+//@   ensures[C05] bq.maxVersions == versions
+//@ func hrpc.(*baseQuery).setMaxResultsPerColumnFamily
+//@   modifies F.hrpc.baseQuery.storeLimit
+//@   ensures[C05] bq.storeLimit == maxresults
+//@ func hrpc.(*baseQuery).setResultOffset
+//@   modifies F.hrpc.baseQuery.storeOffset
+//@   ensures[C05] bq.storeOffset == offset
+//@ func hrpc.(*baseQuery).setCacheBlocks
+//@   modifies F.hrpc.baseQuery.cacheBlocks
+//@   ensures[C05] bq.cacheBlocks == cacheBlocks
+//@ func hrpc.(*baseQuery).setConsistency
+//@   modifies F.hrpc.baseQuery.consistency
+//@   ensures[C05] bq.consistency == consistency
+//@ func hrpc.(*baseQuery).setPriority
+//@   modifies F.hrpc.baseQuery.priority
+//@   ensures[C05] bq.priority == priority
 //@ func hrpc.(*baseQuery).Priority
 //@   modifies nothing
 //@   ensures r0 == bq.priority
